@@ -172,7 +172,9 @@ def bestfit_oracle(c):
         want = sorted(w for (qq, _), w in el.items() if qq == q)
         got = sorted(w for _, w in R.get(q, []))
         if want != got:
-            return ("weight", "query %d: weights of its entries %s differ from the weights of its eligible pairs %s" % (q, got, want))
+            return ("missing-entry" if len(got) < len(want) else "weight",
+                    "query %d: weights of its entries %s differ from the weights of its eligible pairs %s "
+                    "(a pair is eligible with >= min_votes distances <= max_distance)" % (q, [float(x) for x in got], [float(x) for x in want]))
     for t in claim:
         if t not in awarded:
             return ("not-awarded", "track %d has claimants but is awarded to nobody" % t)
@@ -272,7 +274,7 @@ def run(chk):
         chk.coverage.update({"evaluations": 0})
         return
     n = 400 if chk.tier == "quick" else 4000
-    rc, out, err = vlib.harness_run(BIN, ["gen", "--seed", chk.seed, "--n", n, "--tier", chk.tier], timeout=3000)
+    rc, out, err = vlib.harness_run(BIN, ["gen", "--seed", chk.seed, "--n", n, "--tier", chk.tier, "noexh"], timeout=3000)
     recs = [kv(l) for l in out.split("\n") if l.strip()]
     votes = [load_vote(d) for d in recs if d["kind"] in ("topn", "bestfit")]
     sorts = [c02.load_sortv(d) for d in recs if d["kind"] == "sortv"]
